@@ -159,6 +159,51 @@ def routing_clause(model, rep, funcs):
                clause="4 routing", stmt=f"def {f.name}")
 
 
+def per_loader_scale_clause(model, rep, funcs):
+    """PERLOADER: in a loop over the loaders of a group, the pixel search range handed to loader L is nm / L.scale evaluated for *that* L on every iteration (the
+    units domain proves "nm / some scale"; which scale is a matter of where the division is evaluated).  Seeded change C01-17 hoists it behind `if px is None`."""
+    n = 0
+    for a in (LG + "align", LG + "align_multi_templates"):
+        f = funcs.get(a)
+        if f is None:
+            continue
+        for lp in ast.walk(f.node):
+            if not isinstance(lp, ast.For):
+                continue
+            lvars = {x.id for x in ast.walk(lp.target) if isinstance(x, ast.Name)}
+            for c in ast.walk(lp):
+                if not (isinstance(c, ast.Call) and isinstance(c.func, ast.Attribute) and isinstance(c.func.value, ast.Name) and c.func.value.id in lvars):
+                    continue
+                kw = {k.arg: k.value for k in c.keywords if k.arg}
+                if "max_shifts" not in kw:
+                    continue
+                L, v = c.func.value.id, kw["max_shifts"]
+                n += 1
+                rep.instance("PERLOADER", f.loc(c))
+                mentions = lambda e: any(isinstance(x, ast.Attribute) and x.attr == "scale" and isinstance(x.value, ast.Name) and x.value.id == L for x in ast.walk(e))
+                ok, det = None, ""
+                if mentions(v):
+                    ok = True
+                elif isinstance(v, ast.Name):
+                    binds = [(st, par) for par in ast.walk(f.node) for fld in ("body", "orelse", "finalbody") for st in (getattr(par, fld, None) or [])
+                             if isinstance(st, (ast.Assign, ast.AnnAssign)) and st.value is not None and
+                             any(isinstance(t, ast.Name) and t.id == v.id for t in (st.targets if isinstance(st, ast.Assign) else [st.target]))]
+                    inloop = [(st, par) for st, par in binds if par is lp and st in lp.body and mentions(st.value)]
+                    cond = [(st, par) for st, par in binds if par is not lp and any(x is st for x in ast.walk(lp)) and mentions(st.value)]
+                    if inloop and not cond:
+                        ok = True
+                    elif cond:
+                        ok = False
+                        det = (f"`{norm_src(cond[0][0])[:80]}` is evaluated only under a condition inside the loop over the loaders (`{norm_src(cond[0][1]).splitlines()[0][:60]}`): "
+                               f"later loaders are searched with the pixel range of another loader's scale - for loaders of different scale the range is wrong by the scale ratio")
+                    elif binds and not any(any(x is st for x in ast.walk(lp)) for st, _ in binds):
+                        ok = False
+                        det = f"`{v.id}` is computed outside the loop over the loaders, so it cannot be nm / {L}.scale for each loader"
+                rep.ob("PERLOADER", f.anchor, f"the pixel search range handed to {L}.{c.func.attr} is nm / {L}.scale, evaluated for each loader of the group", ok, det,
+                       node=c, fn=f, clause="1 units")
+    rep.floor("PERLOADER", 2, "(LoaderGroup.align, align_multi_templates)")
+
+
 def check(model, rep, tier):
     rep.decided += ["C01.1 units of max_shifts/pos/shift at model and Molecules sinks", "C01.3 feature columns share sources with pose update",
                     "C01.4 align* entry points route through _post_align*"]
@@ -166,6 +211,7 @@ def check(model, rep, tier):
     rep.assumptions += ["unit seeds: parameters annotated nm are nanometres, `scale` is nm/pixel, Molecules.pos is nm, AlignmentResult.shift is pixels"]
     funcs = need_funcs(model, rep, ANCHORS)
     units_clause(model, rep, funcs)
+    per_loader_scale_clause(model, rep, funcs)
     same_source_clause(model, rep, funcs)
     routing_clause(model, rep, funcs)
     from . import C01_frames
